@@ -43,8 +43,9 @@ def VType.isPct : VType → Bool
 /-- what VARZ_DATA[metric][source] holds -/
 inductive Cell where
   | num (v : Int)
-  /-- _SampleSet: retained samples oldest first, number of samples seen -/
-  | res (data : List Int) (seen : Nat)
+  /-- _SampleSet: retained samples oldest first, number of samples seen, `last_update`
+      (LOW_RESOLUTION_TIME_SOURCE.now, whole seconds, when a sample was last retained) -/
+  | res (data : List Int) (seen : Nat) (last : Nat)
   deriving DecidableEq, Repr
 
 abbrev Store := List ((Nat × Source) × Cell)
@@ -68,24 +69,27 @@ def nSeries (m : Nat) (st : Store) : Nat := (seriesOf m st).length
 
 def incCell (a : Int) : Option Cell → Cell
   | some (.num v) => .num (v + a)
-  | some (.res _ _) => .num (0 + a)   -- unreachable: a metric is only used through its type's entry point
+  | some (.res _ _ _) => .num (0 + a)   -- unreachable: a metric is only used through its type's entry point
   | none => .num (0 + a)
 
 def setCell (v : Int) : Option Cell → Cell
   | _ => .num v
 
-/-- _SampleSet.Sample: below `cap` samples seen the value is appended; afterwards only if
-    the random draw said so (`keep`), the deque then drops its oldest element -/
-def sampleInto (cap : Nat) (keep : Bool) (v : Int) (data : List Int) (seen : Nat) : Cell :=
-  if seen < cap then .res (data ++ [v]) (seen + 1)
+/-- _SampleSet.Sample at time `now`: below `cap` samples seen the value is appended; afterwards
+    only if the random draw said so (`keep`), the deque then drops its oldest element.
+    `last_update` is refreshed exactly when a value is appended. -/
+def sampleInto (cap : Nat) (keep : Bool) (v : Int) (now : Nat) (data : List Int) (seen last : Nat) : Cell :=
+  if seen < cap then .res (data ++ [v]) (seen + 1) now
   else if keep then
     let d := data ++ [v]
-    .res (if d.length > cap then d.drop (d.length - cap) else d) (seen + 1)
-  else .res data (seen + 1)
+    .res (if d.length > cap then d.drop (d.length - cap) else d) (seen + 1) now
+  else .res data (seen + 1) last
 
-def sampleCell (cap : Nat) (keep : Bool) (v : Int) : Option Cell → Cell
-  | some (.res data seen) => sampleInto cap keep v data seen
-  | _ => sampleInto cap keep v [] 0
+/-- RecordPercentileSample: a missing reservoir is created first (`_SampleSet.__init__` sets
+    `last_update` to the current time) -/
+def sampleCell (cap : Nat) (keep : Bool) (v : Int) (now : Nat) : Option Cell → Cell
+  | some (.res data seen last) => sampleInto cap keep v now data seen last
+  | _ => sampleInto cap keep v now [] 0 now
 
 /-! ### aggregation -/
 
@@ -96,11 +100,20 @@ def firstOcc {α : Type} [DecidableEq α] : List α → List α
 
 def cellNum : Cell → Int
   | .num v => v
-  | .res _ _ => 0
+  | .res _ _ _ => 0
 
 def cellData : Cell → List Int
   | .num _ => []
-  | .res d _ => d
+  | .res d _ _ => d
+
+/-- VarzAggregator.MAX_AGG_AGE, seconds -/
+def maxAggAge : Nat := 300
+
+/-- `(now - data.last_update) < MAX_AGG_AGE` (a clock that went backwards counts as fresh,
+    as in the code, where the difference is then negative) -/
+def cellFresh (now : Nat) : Cell → Bool
+  | .num _ => true
+  | .res _ _ last => decide (now - last < maxAggAge)
 
 /-- the series of a metric that roll up to one key -/
 def withKey (K : Key) (ser : List (Source × Cell)) : List (Source × Cell) :=
@@ -140,14 +153,27 @@ def pctNum (vs : List Int) (p q : Nat) : Int :=
     if r = 0 then vs.getD f 0 * (q : Int)
     else vs.getD f 0 * ((q : Int) - (r : Int)) + vs.getD (f + 1) 0 * (r : Int)
 
-/-- the retained samples that Aggregate merges for one key (all sources of the key) -/
+/-- the retained samples of all reservoirs of one key (fresh or not) -/
 def mergedData (K : Key) (ser : List (Source × Cell)) : List Int :=
   (withKey K ser).foldr (fun e acc => cellData e.2 ++ acc) []
 
-/-- the percentile list Aggregate reports for a key with a single source (for several
-    sources the code down-samples with float arithmetic, which is not modelled: `[]`) -/
-def aggPcts (pcts : List (Nat × Nat)) (K : Key) (ser : List (Source × Cell)) : List Int :=
-  if aggCount K ser = 1 then pcts.map (fun pq => pctNum (isort (mergedData K ser)) pq.1 pq.2) else []
+/-- the reservoirs of one key that Aggregate uses at time `now`: those not older than MAX_AGG_AGE -/
+def freshOf (now : Nat) (K : Key) (ser : List (Source × Cell)) : List (Source × Cell) :=
+  (withKey K ser).filter (fun e => cellFresh now e.2)
+
+def freshData (now : Nat) (K : Key) (ser : List (Source × Cell)) : List Int :=
+  (freshOf now K ser).foldr (fun e acc => cellData e.2 ++ acc) []
+
+/-- `count` of a percentile key: the number of fresh reservoirs -/
+def pctCount (now : Nat) (K : Key) (ser : List (Source × Cell)) : Nat := (freshOf now K ser).length
+
+/-- the percentile list Aggregate reports for a key at time `now`: with one fresh reservoir the
+    percentiles of its retained samples; with none, CalculatePercentile([]) = 0 for each; for
+    several the code down-samples with float arithmetic, which is not modelled: `[]` -/
+def aggPcts (pcts : List (Nat × Nat)) (now : Nat) (K : Key) (ser : List (Source × Cell)) : List Int :=
+  if pctCount now K ser = 1 then pcts.map (fun pq => pctNum (isort (freshData now K ser)) pq.1 pq.2)
+  else if pctCount now K ser = 0 then pcts.map (fun _ => 0)
+  else []
 
 /-- metrics present in VARZ_DATA in first-touch order -/
 def metricsOf (st : Store) : List Nat := firstOcc (st.map (fun e => e.1.1))
